@@ -1264,6 +1264,14 @@ class QueryBuilder(Selectable, Term):
                 return False
         return True
 
+    def _validate_with_references(self) -> None:
+        """
+        Raises JoinException if a join criterion refers to a WITH query that the statement does not define. Checked
+        when the statement is rendered, because with_() may be called after the join.
+        """
+        for join in self._joins:
+            join.validate_with(self._from, self._joins, self._with)
+
     def _tag_subquery(self, subquery: "QueryBuilder") -> None:
         subquery.alias = "sq%d" % self._subquery_count
         self._subquery_count += 1
@@ -1321,6 +1329,8 @@ class QueryBuilder(Selectable, Term):
             return ""
         if self._update_table and not self._updates:
             return ""
+
+        self._validate_with_references()
 
         has_joins = bool(self._joins)
         has_multiple_from_clauses = 1 < len(self._from)
@@ -1745,6 +1755,9 @@ class Join:
     def validate(self, _from: Sequence[Table], _joins: Sequence[Table]) -> None:
         pass
 
+    def validate_with(self, _from: Sequence[Table], _joins: Sequence[Table], _with: Sequence[AliasedQuery]) -> None:
+        pass
+
     @builder
     def replace_table(self, current_table: Optional[Table], new_table: Optional[Table]) -> "Join":
         """
@@ -1785,11 +1798,24 @@ class JoinOn(Join):
         criterion_tables = set([f.table for f in self.criterion.find_(Field)])
         available_tables = set(_from) | {join.item for join in _joins} | {self.item}
         missing_tables = criterion_tables - available_tables - {None}
+        # WITH queries belong to the statement and with_() may be called after the join: references to them are
+        # checked by validate_with() when the statement is rendered
+        missing_tables = {table for table in missing_tables if not isinstance(table, AliasedQuery)}
         if missing_tables:
             raise JoinException(
                 "Invalid join criterion. One field is required from the joined item and "
                 "another from the selected table or an existing join.  Found [{tables}]".format(
                     tables=", ".join(map(str, missing_tables))
+                )
+            )
+
+    def validate_with(self, _from: Sequence[Table], _joins: Sequence[Table], _with: Sequence[AliasedQuery]) -> None:
+        referenced = {f.table for f in self.criterion.find_(Field) if isinstance(f.table, AliasedQuery)}
+        missing_queries = referenced - set(_with) - set(_from) - {join.item for join in _joins}
+        if missing_queries:
+            raise JoinException(
+                "Invalid join criterion. No WITH query, selected table or joined item is named [{names}]".format(
+                    names=", ".join(query.name for query in missing_queries)
                 )
             )
 
